@@ -250,8 +250,16 @@ def run(ctx):
         return [n for s2 in iter_stmts(stmts) for n in walk_expr(s2)
                 if isinstance(n, ast.Subscript) and isinstance(n.value, ast.Name) and n.value.id == 'varo' and isinstance(n.ctx, ast.Load)]
 
-    def rewrite_of(idx, stmts):
+    def rewrite_of(idx, stmts, seqname='sliceo', depth=0):
         """kind -> kind map of how index tuple *idx* (a Name) is built from the per-axis selectors in *stmts*"""
+        # form D: the tuple is built by a module-level helper that receives the selector list: analysed in the helper's body
+        if isinstance(idx, ast.Call) and isinstance(idx.func, ast.Name) and idx.func.id in mod.functions and depth < 2:
+            callee = mod.functions[idx.func.id]
+            pos = [i for i, a_ in enumerate(idx.args) if isinstance(a_, ast.Name) and a_.id == seqname]
+            rets = [s2 for s2 in iter_stmts(callee.body) if isinstance(s2, ast.Return) and s2.value is not None]
+            if len(pos) == 1 and len(rets) == 1 and pos[0] < len(callee.args.args):
+                return rewrite_of(rets[0].value, callee.body, seqname=callee.args.args[pos[0]].arg, depth=depth + 1)
+            return None
         if not isinstance(idx, ast.Name):
             # inline generator/tuple expression
             gen = idx
@@ -263,7 +271,7 @@ def run(ctx):
         # form A: tuple(<expr of si> for si in sliceo)
         if isinstance(gen, ast.Call) and dotted(gen.func) == 'tuple' and gen.args and isinstance(gen.args[0], (ast.GeneratorExp, ast.ListComp)):
             g = gen.args[0]
-            if isinstance(g.generators[0].iter, ast.Name) and g.generators[0].iter.id == 'sliceo' and isinstance(g.generators[0].target, ast.Name):
+            if isinstance(g.generators[0].iter, ast.Name) and g.generators[0].iter.id == seqname and isinstance(g.generators[0].target, ast.Name):
                 v = g.generators[0].target.id
                 return dict((k, abs_rewrite(g.elt, k, v)) for k in KINDS)
             # tuple(sliceoi) after an append loop: fall through to form B on the inner name
@@ -274,7 +282,7 @@ def run(ctx):
         # form B: for si in sliceo: if P1: L.append(E1) elif P2: L.append(E2) else: L.append(E3)
         if isinstance(idx, ast.Name):
             for lp in iter_stmts(stmts):
-                if isinstance(lp, ast.For) and isinstance(lp.iter, ast.Name) and lp.iter.id == 'sliceo' and isinstance(lp.target, ast.Name):
+                if isinstance(lp, ast.For) and isinstance(lp.iter, ast.Name) and lp.iter.id == seqname and isinstance(lp.target, ast.Name):
                     v = lp.target.id
                     out = {}
                     for k in KINDS:
@@ -288,12 +296,19 @@ def run(ctx):
                             if tv or not (len(body) == 1 and isinstance(body[0], ast.If)):
                                 apps = [c for s3 in body for c in walk_expr(s3) if isinstance(c, ast.Call) and isinstance(c.func, ast.Attribute) and c.func.attr == 'append']
                                 res = abs_rewrite(apps[0].args[0], k, v) if apps else None
+                                if not apps:
+                                    # the branch only chooses the element (X = E); one append(X) follows the chain
+                                    asg = [s3 for s3 in body if isinstance(s3, ast.Assign) and len(s3.targets) == 1 and isinstance(s3.targets[0], ast.Name)]
+                                    tail = [c for s3 in lp.body[1:] for c in walk_expr(s3) if isinstance(c, ast.Call) and isinstance(c.func, ast.Attribute) and c.func.attr == 'append'
+                                            and len(c.args) == 1 and isinstance(c.args[0], ast.Name)]
+                                    if len(asg) == 1 and len(tail) == 1 and tail[0].args[0].id == asg[0].targets[0].id:
+                                        res = abs_rewrite(asg[0].value, k, v)
                                 break
                             node = body[0]
                         out[k] = res
                     return out
         # form C: the selector tuple itself
-        if isinstance(idx, ast.Name) and idx.id == 'sliceo':
+        if isinstance(idx, ast.Name) and idx.id == seqname:
             return dict((k, {'SEQ': 'SEQn', 'NPINT': 'INT'}.get(k, k)) for k in KINDS)
         return None
     nsites = 0
